@@ -60,6 +60,10 @@ def configs(ss):
                                           connectors=ZeroTransOfInfected(name='zerotrans'), dur=4, rand_seed=seed, verbose=0)
     cf['mixingpool'] = lambda seed, bscale=1.0: ss.Sim(n_agents=80, diseases=ss.SIS(init_prev=0.1), networks=ss.MixingPool(beta=ss.beta(0.3 * bscale), contacts=ss.poisson(2)),
                                           demographics=ss.Deaths(death_rate=20), dur=5, rand_seed=seed, verbose=0)
+    cf['mixingpool-explicit-dst-deaths'] = lambda seed, bscale=1.0: ss.Sim(n_agents=100, diseases=ss.SIS(init_prev=0.3), demographics=ss.Deaths(death_rate=150), dur=8, rand_seed=seed, verbose=0,
+                                          networks=ss.MixingPool(beta=ss.beta(0.9 * bscale), contacts=ss.poisson(3), src=None, dst=ss.uids(np.arange(0, 100, 2))))
+    cf['mixingpool-explicit-src-dst-deaths'] = lambda seed, bscale=1.0: ss.Sim(n_agents=100, diseases=ss.SIS(init_prev=0.3), demographics=ss.Deaths(death_rate=150), dur=8, rand_seed=seed, verbose=0,
+                                          networks=ss.MixingPool(beta=ss.beta(0.9 * bscale), contacts=ss.poisson(3), src=ss.uids(np.arange(1, 100, 2)), dst=ss.uids(np.arange(0, 100, 2))))
     return cf
 
 
@@ -128,6 +132,8 @@ def run_level(ctx, ss):
                     new, dst = set(map(int, r['new'])), set(map(int, r['dst']))
                     key = dict(config=name, seed=seed, pool=pc['pool'], ti=pc['ti'], disease=dname)
                     if not new <= dst: ctx.violation(f'{name}: mixing pool infected agents outside its destination group', key)
+                    gone = [u for u in new if u not in set(map(int, pc['auids']))]
+                    if gone: ctx.violation(f'{name}: mixing pool infected agent {gone[0]} at step {pc["ti"]}, who is not active any more (died earlier)', key)
                     bad = [u for u in new if not st['sus'][u]]
                     if bad: ctx.violation(f'{name}: mixing pool infected non-susceptible agents {bad[:3]}', key)
                     if new and pc['src'] is not None and not any(st['inf'][int(u)] and st['rel_trans'][int(u)] > 0 for u in pc['src']):
